@@ -428,7 +428,7 @@ def _evolve2d_fixed(cellular_automaton, timesteps, apply_rule, neighbourhood, ro
     for t in range(1, timesteps):
         cell_layer = array[t - 1]
 
-        if memoize is "recursive":
+        if memoize == "recursive":
             next_state = np.zeros(cell_layer.shape, dtype=cell_layer.dtype)
             _step(cell_indices, cell_idx_to_neigh_idx, cell_layer, next_state, recursive_cache, apply_rule,
                   neighbourhood, von_neumann_mask, t)
@@ -498,7 +498,7 @@ def _evolve2d_dynamic(cellular_automaton, timesteps, apply_rule, neighbourhood, 
         prev_layer = array[-1]
         next_layer = np.zeros((rows, cols), dtype=cellular_automaton.dtype)
 
-        if memoize is "recursive":
+        if memoize == "recursive":
             _step(cell_indices, cell_idx_to_neigh_idx, prev_layer, next_layer, recursive_cache, apply_rule,
                   neighbourhood, von_neumann_mask, t)
         else:
